@@ -10,7 +10,7 @@
     The remaining fields (id, opcode, rcode, EDNS version / extended rcode / option count / payload
     size) are single reads of the bytes by definition of the model; their agreement with the
     implementation and with independent decoding is decided by the correspondence on every run. *)
-From DV Require Import Model.Base Model.Parser Model.Header Model.Readers Spec.NameSpec Proofs.Hoare Proofs.HeaderBits
+From DV Require Import Model.Base Model.Parser Model.Header Model.Readers Spec.NameSpec Spec.RecordSpec Proofs.Hoare Proofs.HeaderBits
   Proofs.SummaryBits Proofs.ReadersLabels Proofs.QuestionSpec.
 Local Open Scope N_scope.
 
